@@ -311,8 +311,10 @@ def check_C07(tier, seed):
 
 
 def check_C14(tier, seed):
-    return codec_family("C14", tier, seed, "life", exact=False, san="asan", valcap=3 if tier == "quick" else 10, maxfail=3 if tier == "quick" else 12,
-                        rule="per (type, value, syntax) histories: starved chunked decode then free; decode, RESET (structure must be all zero), decode into the reset structure, re-encode, free; failure of the k-th library allocation during decode / encode, for EVERY k up to the number of allocations of the undisturbed call (in-driver sweep; plus explicit histories for k = 1..MaxFail), then free; valid encodings of values the native C representation cannot hold (2^63, 2^64, ...) decoded and freed; truncated / damaged input then free or reset + re-decode; the allocation ledger (link-time wrapped allocator) must be empty after the last free; ASan build turns double frees into Crash events")
+    # 16K..64K-element values: build, encode, every prefix around the fragment boundaries decoded and freed, decode, free
+    res = codec_family("C14", tier, seed, "big", exact=False, san="asan", modules=(4,), finish_it=False)
+    return codec_family("C14", tier, seed, "life", exact=False, san="asan", res=res, valcap=3 if tier == "quick" else 10, maxfail=3 if tier == "quick" else 12,
+                        rule="per (type, value, syntax) histories: starved chunked decode then free; decode, RESET (structure must be all zero), decode into the reset structure, re-encode, free; failure of the k-th library allocation during decode / encode, for EVERY k up to the number of allocations of the undisturbed call (in-driver sweep; plus explicit histories for k = 1..MaxFail), then free; valid encodings of values the native C representation cannot hold (2^63, 2^64, ...) decoded and freed; every proper prefix of every reference encoding (for 16K..64K-element values: the prefixes around every 16K fragment boundary) decoded and freed (in-driver sweep); truncated / damaged input then free or reset + re-decode; the allocation ledger (link-time wrapped allocator) must be empty after the last free; ASan build turns double frees into Crash events")
 
 
 def check_C04(tier, seed):
